@@ -91,8 +91,8 @@ def _membership_pred(it, key):
 
 def check_chain_argspec(rep, rule):
     repo = rep.repo
-    sinter = repo.mod(SINTER)
-    fi = sinter.func('chain_argspec')
+    fi = repo.mod(SINTER).func('chain_argspec')
+    sinter = fi.mod        # the module the definition lives in now
     ps = fi.params()
     if len(ps) != 3:
         raise AnalysisError('chain_argspec signature changed: %r' % ps)
@@ -531,6 +531,20 @@ def check_phase_sets(rep, rule, rule_pair=None, rule_order=None, rule_core_env=N
                 r = flatten_comp(it, e.args[0])
                 if r is not None:
                     return r
+            # flatten of a provides list through the union method:  <set>.union(*X)  (the receiver's names plus every name of
+            # every provides tuple of X; further plain arguments are sets joined in)
+            if isinstance(e.func, ast.Attribute) and e.func.attr == 'union' and not e.keywords and \
+                    any(isinstance(a_, ast.Starred) for a_ in e.args):
+                stars = [phase_val(it.try_eval(a_.value)) for a_ in e.args if isinstance(a_, ast.Starred)]
+                if all(pv is not None and pv[0] == 'provs' and pv[1] in provs_atom for pv in stars):
+                    m = it.as_set(it.eval(e.func.value), e.func.value)
+                    for a_ in e.args:
+                        if not isinstance(a_, ast.Starred):
+                            m |= it.as_set(it.eval(a_), a_)
+                    for pv in stars:
+                        note(pv[2], 'provs', pv[1])
+                        m |= uni[provs_atom[pv[1]]]
+                    return m
             if cn in ('set', 'frozenset') and e.args:
                 for n in ast.walk(e.args[0]):
                     if isinstance(n, ast.Name) or (isinstance(n, ast.Subscript) and isinstance(n.value, ast.Name)):
@@ -741,7 +755,7 @@ def check_phase_sets(rep, rule, rule_pair=None, rule_order=None, rule_core_env=N
     it = SetInterp(uni, env={ps[3]: uni['PRE']}, elems={"'next'": uni['NEXT'], "'context'": uni['CTX']}, model=model)
     it.if_model = if_model
     it.for_model = for_model
-    it.fold = lambda e: repo.try_fold(e, core)
+    it.fold = lambda e: repo.try_fold(e, fi.mod)
     for p in ps[:3]:
         it.env[p] = Opaque(None, p)
     try:
@@ -762,7 +776,7 @@ def check_phase_sets(rep, rule, rule_pair=None, rule_order=None, rule_core_env=N
         rep.check(rule_pair, fkey(fi, 'pairing mw.%s' % ph), ok,
                   'mw.%s is paired with mw.%s' % (ph, want) if ok else
                   'mw.%s functions are paired with mw.%s (expected mw.%s): provides of another phase are counted'
-                  % (ph, got_prov, want), core, fd['node'])
+                  % (ph, got_prov, want), fi.mod, fd['node'])
         if rule_order:
             def in_order(d):
                 itx = d['iter']
@@ -776,7 +790,7 @@ def check_phase_sets(rep, rule, rule_pair=None, rule_order=None, rule_core_env=N
                       'the %s function list is not the middleware list in order filtered by presence (iter %s, filters %s%s)'
                       % (ph, norm(fd['iter']), (fd if not in_order(fd) or pd is None else pd).get('ifs_text') or [norm(c) for c in fd['ifs']],
                          ', then %s()' % fd['reordered'] if fd.get('reordered') else ''),
-                      core, fd['node'])
+                      fi.mod, fd['node'])
     # ---- availability sets by abstract interpretation
     base = uni['PRE'] & uni.neg(uni['NEXT']) & uni.neg(uni['CTX'])
     want = {'request': (base, '(preprovided - {next, context})'),
@@ -788,16 +802,16 @@ def check_phase_sets(rep, rule, rule_pair=None, rule_order=None, rule_core_env=N
         ok = c['avail'] == w
         rep.check(rule, fkey(fi, '%s availability' % ph), ok,
                   '%s phase may draw on exactly %s' % (ph, text) if ok else
-                  '%s-phase availability differs from %s: %s' % (ph, text, uni.diff_witness(c['avail'], w)), core, c['call'])
+                  '%s-phase availability differs from %s: %s' % (ph, text, uni.diff_witness(c['avail'], w)), fi.mod, c['call'])
         ok = c['provs_phase'] == ph
         rep.check(rule_pair, fkey(fi, '%s make_chain lists' % ph), ok, 'function and provides lists of the same phase' if ok else
-                  'make_chain for %s functions gets the provides list of phase %s' % (ph, c['provs_phase']), core, c['call'])
-        inn = repo.try_fold(c['inner'], core)
+                  'make_chain for %s functions gets the provides list of phase %s' % (ph, c['provs_phase']), fi.mod, c['call'])
+        inn = repo.try_fold(c['inner'], fi.mod)
         ok = inn == 'next'
-        rep.check(rule_pair, fkey(fi, '%s inner name' % ph), ok, "inner name is 'next'" if ok else 'inner name is %r' % inn, core, c['call'])
+        rep.check(rule_pair, fkey(fi, '%s inner name' % ph), ok, "inner name is 'next'" if ok else 'inner name is %r' % inn, fi.mod, c['call'])
     ok = calls['endpoint']['final'] == ps[1] and calls['render']['final'] == ps[2]
     rep.check(rule_pair, fkey(fi, 'final functions'), ok, 'endpoint chain ends in endpoint, render chain in render' if ok else
-              'final functions are %s / %s' % (calls['endpoint']['final'], calls['render']['final']), core, calls['endpoint']['call'])
+              'final functions are %s / %s' % (calls['endpoint']['final'], calls['render']['final']), fi.mod, calls['endpoint']['call'])
     # ---- request core arguments
     if 'call' not in inner:
         raise AnalysisError('make_middleware_chain no longer calls _create_request_inner')
@@ -806,28 +820,28 @@ def check_phase_sets(rep, rule, rule_pair=None, rule_order=None, rule_core_env=N
     ok = len(ia) == 5 and isinstance(ia[0], Opaque) and ia[0].tag == 'chain:endpoint' and isinstance(ia[1], Opaque) and ia[1].tag == 'chain:render'
     rep.check(rule_core_env, fkey(fi, 'request core chains'), ok,
               'process_request is built from (endpoint chain, render chain) in that order' if ok else
-              '_create_request_inner does not receive (endpoint chain, render chain)', core, inner['call'])
+              '_create_request_inner does not receive (endpoint chain, render chain)', fi.mod, inner['call'])
     if len(ia) == 5:
         w_all = (uni['EPA'] | uni['RNA']) & uni.neg(uni['CTX'])
         ok = ia[2] == w_all
         rep.check(rule, fkey(fi, 'process_request args'), ok,
                   'process_request takes (endpoint args | render args) - {context}: context is produced inside, never demanded' if ok else
                   'process_request argument set differs from (ep_args | rn_args) - {context}: %s' %
-                  (uni.diff_witness(ia[2], w_all) if isinstance(ia[2], int) else 'not a set'), core, inner['call'])
+                  (uni.diff_witness(ia[2], w_all) if isinstance(ia[2], int) else 'not a set'), fi.mod, inner['call'])
         ok = ia[3] == uni['EPA'] and ia[4] == uni['RNA']
         rep.check(rule, fkey(fi, 'core call args'), ok, 'endpoint is called with its chain args, render with its own' if ok else
-                  'endpoint/render argument sets passed to the request core are swapped or altered', core, inner['call'])
+                  'endpoint/render argument sets passed to the request core are swapped or altered', fi.mod, inner['call'])
     # request-phase final func is the request core
     rq = calls['request']
     v = it.try_eval(rq['final_node'])
     ok = isinstance(v, Opaque) and v.tag == 'req_inner'
     rep.check(rule_core_env, fkey(fi, 'request chain wraps core'), ok, 'request middlewares wrap process_request' if ok else
-              'the request chain does not end in the process_request function', core, rq['call'])
+              'the request chain does not end in the process_request function', fi.mod, rq['call'])
     # return value
     rets = returns_of(fi)
     ok = len(rets) == 1 and isinstance(it.try_eval(rets[0].value), Opaque) and it.try_eval(rets[0].value).tag == 'chain:request'
     rep.check(rule_core_env, fkey(fi, 'returns request chain'), ok, 'the request chain is what is returned' if ok else
-              'make_middleware_chain does not return the request-phase chain', core, rets[0] if rets else fi.node)
+              'make_middleware_chain does not return the request-phase chain', fi.mod, rets[0] if rets else fi.node)
     return calls
 
 
@@ -1208,7 +1222,7 @@ def check_unresolved_raises(rep, rule):
         tb, fb = [], []
         for nid, tt, p in branches:
             if isinstance(tt, ast.Compare) and len(tt.ops) == 1 and isinstance(tt.ops[0], (ast.In, ast.NotIn)) and \
-                    repo.try_fold(tt.left, core) == 'next' and names_of_who(tt.comparators[0]):
+                    repo.try_fold(tt.left, fi.mod) == 'next' and names_of_who(tt.comparators[0]):
                 takes = p if isinstance(tt.ops[0], ast.In) else not p
                 (tb if takes else fb).append(nid)
         ok = bool(tb) and _always_raises(cfg, tb, 'NameError')[0] and cfg.must_pass(fb, cfg.entry, cfg.exit, normal_only=True)
@@ -1251,8 +1265,7 @@ def analyse_level_template(repo):
 
 
 def _render_level(repo, fi, parts, level):
-    sinter = repo.mod(SINTER)
-    indent = sinter.const('_INDENT')
+    indent = fi.mod.const('_INDENT')       # (in the module the generator lives in now)
     level_param = 'level' if 'level' in fi.params() else None
     r = codegen.render(parts, level_param=level_param, level_value=level)
     rec_text = indent * (level + 1) + 'def __REC__():\n' + indent * (level + 2) + 'pass\n'
@@ -1264,8 +1277,8 @@ def check_generated_level(rep, r_kw, r_decl, r_tail, r_index, r_rec):
     """r_kw: keyword identity (R02.a); r_decl: declared-only / in-scope filter (R02.b);
     r_tail: pure tail call shape (R03.a); r_index: level/index agreement (R03.b); r_rec: recursion (R01.f)."""
     repo = rep.repo
-    sinter = repo.mod(SINTER)
     fi, te, parts, stop, main = analyse_level_template(repo)
+    sinter = fi.mod        # the module the generator lives in now
     ps = fi.params()
     key = lambda w: fkey(fi, w)
     # stopping case
@@ -1472,7 +1485,7 @@ def check_request_core(rep, rule, rule_kw=None):
     br_name = 'BaseResponse'
     for k, v in envmap.items():
         if v is not None and v.isidentifier() and v not in te.env:
-            kind_, mm_, obj_ = repo.resolve(core, v)
+            kind_, mm_, obj_ = repo.resolve(fi.mod, v)
             if kind_ == 'class' and obj_.name == 'BaseResponse':
                 br_name = k
     calls = [n for n in ast.walk(f) if isinstance(n, ast.Call)]
@@ -1563,7 +1576,7 @@ def check_request_core(rep, rule, rule_kw=None):
         free = set(x for x in free if not x.startswith('__H') and x not in ('isinstance', 'True', 'False', 'None'))
         ok = m.get(ep_name) == ps[0] and m.get(rn_name) == ps[1] and ep_name != rn_name and br_name in m and free <= set(m)
         if ok:
-            k, mm, obj = repo.resolve(core, m[br_name]) if m[br_name] and m[br_name] not in te.env else (None, None, None)
+            k, mm, obj = repo.resolve(fi.mod, m[br_name]) if m[br_name] and m[br_name] not in te.env else (None, None, None)
             ok = k == 'class' and obj.name == 'BaseResponse' and obj.mod.name.startswith('werkzeug')
     rep.check(rule, fkey(fi, 'environment'), ok, "names endpoint/render/BaseResponse in the generated code are bound to the endpoint chain, the "
               "render chain and werkzeug's BaseResponse" if ok else 'the environment handed to compile_code mis-binds endpoint/render/BaseResponse',
@@ -1651,20 +1664,20 @@ def check_accessors(rep, rule, kinds=True):
                 continue
             found.append((n, c))
         if not found:
-            rep.fail(rule, fkey(fi, 'accessor'), '%s no longer enumerates the callee\'s parameters (role: %s)' % (fi.qualname, role), mod, fi.node)
+            rep.fail(rule, fkey(fi, 'accessor'), '%s no longer enumerates the callee\'s parameters (role: %s)' % (fi.qualname, role), fi.mod, fi.node)
         for n, c in found:
             ok = c == 'all'
             rep.check(rule, fkey(fi, n), ok,
                       '%s enumerates all named parameters (positional-or-keyword and keyword-only)' % role if ok else
                       '%s reads the %s parameters only (%s) while the bind-time check counts all of them: a keyword-only parameter is '
                       'checked at bind time but never passed (TypeError per request), or silently keeps its default'
-                      % (role, c, short(n)), mod, n)
+                      % (role, c, short(n)), fi.mod, n)
     # defaults accessor agreement
     for mod, q in ((sinter, 'chain_argspec'), (sinter, 'inject')):
         fi = mod.func(q)
         ok = any(isinstance(n, ast.Call) and call_tail(n) == 'get_defaults_dict' for n in walk_body(fi.node))
         rep.check(rule, fkey(fi, 'defaults accessor'), ok, 'defaults come from get_defaults_dict() (positional and keyword-only defaults)' if ok else
-                  '%s does not use get_defaults_dict()' % q, mod, fi.node)
+                  '%s does not use get_defaults_dict()' % q, fi.mod, fi.node)
     check_fb_stateless(rep, rule, sinter.func('get_fb'))
     if not kinds:
         return
@@ -2187,7 +2200,7 @@ def _merge_records(repo):
         # for a reorderable unique duplicate.  The ends of an iteration are the predecessors of the loop head inside the body.
         head = [n for n in cfg.nodes_of(loops[0]) if cfg.nodes[n].kind == 'head']
         iter_nodes = [n.id for n in cfg.nodes if n.kind == 'iter' and n.stmt is loops[0]]
-        app_nodes = cfg.nodes_of_all([s if isinstance(s, ast.stmt) else stmt_of(core, s) for s in app_sites]) if app_sites else []
+        app_nodes = cfg.nodes_of_all([s if isinstance(s, ast.stmt) else stmt_of(fi.mod, s) for s in app_sites]) if app_sites else []
         in_body = cfg.reach(iter_nodes, avoid=head)
         ends = [p_ for h in head for p_ in cfg.pred[h] if p_ in in_body]
         drops = [p_ for p_ in ends if p_ not in app_nodes and not cfg.must_pass(app_nodes, iter_nodes, [p_])]
@@ -2577,7 +2590,7 @@ def check_merge_order(rep, rule):
     fi, recs = _merge_records(repo)
     for r in recs:
         if r['order'] is not None:
-            rep.check(rule, r['key'], r['order'][0], r['order'][1], core, r['node'])
+            rep.check(rule, r['key'], r['order'][0], r['order'][1], fi.mod, r['node'])
     if any(r['key'].endswith('iterates old in order') and not r['order'][0] for r in recs):
         return
     check_raise_total(rep, rule, fi, [r for r in raises_of(fi)], 'the ValueError for a doubly included unique middleware')
@@ -2604,7 +2617,7 @@ def check_merge_order(rep, rule):
               'merge_middlewares is called with (old=%s, new=%s): the binding application\'s middlewares must be the new (outer) list' % (o_old, o_new),
               route, c)
     check_stack_pinned(rep, rule)
-    st = stmt_of(route, c)
+    st = stmt_of(bi.mod, c)
     sm = [s_ for s_ in stmts_of(bi.node) if isinstance(s_, ast.Assign) and any(norm(t) == 'self.middlewares' for t in s_.targets)]
     ok = len(sm) == 1
     if ok:
@@ -2649,7 +2662,7 @@ def eval_bind_sources(repo, expr, before_stmt):
         for k, ts in texts.items():
             if t in ts:
                 return uni[k]
-        if t == 'RESERVED_ARGS' and repo.try_fold(e, route) is not None:
+        if t == 'RESERVED_ARGS' and repo.try_fold(e, bi.mod) is not None:
             return uni['BUILTINS']
         return None
 
@@ -2708,8 +2721,8 @@ def _is_varkw_cond(t, pol):
 
 def check_inject(rep, r_decl, r_layers):
     repo = rep.repo
-    sinter = repo.mod(SINTER)
-    fi = sinter.func('inject')
+    fi = repo.mod(SINTER).func('inject')
+    sinter = fi.mod        # the module the definition lives in now
     ps = fi.params()  # f, injectables
     calls = [c for c in walk_body(fi.node) if isinstance(c, ast.Call) and norm(c.func) == ps[0]]
     if not calls:
